@@ -1,12 +1,26 @@
 package main
 
-// GraphJ is the JSON form of a generated model (filled in by the graph streams).
+import (
+	"fmt"
+
+	"github.com/advancedclimatesystems/gonnx"
+	"github.com/advancedclimatesystems/gonnx/onnx"
+	"google.golang.org/protobuf/proto"
+)
+
+// GraphJ is the JSON form of a generated model.
 type GraphJ struct {
-	Nodes   []NodeJ         `json:"nodes"`
-	Inputs  []VInfoJ        `json:"inputs"`
-	Outputs []string        `json:"outputs"`
-	Inits   []InitJ         `json:"inits"`
-	Opsets  [][2]any        `json:"opsets,omitempty"`
+	Nodes   []NodeJ  `json:"nodes"`
+	Inputs  []VInfoJ `json:"inputs"`
+	Outputs []string `json:"outputs"`
+	Inits   []InitJ  `json:"inits"`
+	Opsets  []OpsetJ `json:"opsets,omitempty"` // nil => [{"", 13}]
+	NoGraph bool     `json:"nograph,omitempty"`
+}
+
+type OpsetJ struct {
+	Domain  string `json:"domain"`
+	Version int64  `json:"version"`
 }
 
 type NodeJ struct {
@@ -16,15 +30,79 @@ type NodeJ struct {
 	Outs  []string `json:"outs"`
 }
 
+// VInfoJ declares a graph input. Dims entries: number = fixed size (0 = unspecified), string = symbolic.
+// NoShape: the value info carries no tensor type / shape at all.
 type VInfoJ struct {
-	Name string `json:"name"`
-	Dt   string `json:"dt"`
-	Dims []any  `json:"dims"` // int = fixed, string = symbolic, nil = unspecified; whole list nil = no shape info
-	NoShape bool `json:"noshape,omitempty"`
+	Name    string `json:"name"`
+	Dt      string `json:"dt"`
+	Dims    []any  `json:"dims"`
+	NoShape bool   `json:"noshape,omitempty"`
 }
 
 type InitJ struct {
 	Name string `json:"name"`
 	T    *TJ    `json:"t"`
 	Raw  bool   `json:"raw,omitempty"`
+}
+
+func mkValueInfo(v VInfoJ) *onnx.ValueInfoProto {
+	vi := &onnx.ValueInfoProto{Name: v.Name}
+	if v.NoShape {
+		return vi
+	}
+	sh := &onnx.TensorShapeProto{}
+	for _, d := range v.Dims {
+		switch x := d.(type) {
+		case string:
+			sh.Dim = append(sh.Dim, &onnx.TensorShapeProto_Dimension{Value: &onnx.TensorShapeProto_Dimension_DimParam{DimParam: x}})
+		case nil:
+			sh.Dim = append(sh.Dim, &onnx.TensorShapeProto_Dimension{})
+		default:
+			sh.Dim = append(sh.Dim, &onnx.TensorShapeProto_Dimension{Value: &onnx.TensorShapeProto_Dimension_DimValue{DimValue: toI(x)}})
+		}
+	}
+	et := onnxCode[v.Dt]
+	if et == 0 {
+		et = 1
+	}
+	vi.Type = &onnx.TypeProto{Value: &onnx.TypeProto_TensorType{TensorType: &onnx.TypeProto_Tensor{ElemType: et, Shape: sh}}}
+	return vi
+}
+
+func buildModelProto(g *GraphJ) *onnx.ModelProto {
+	mp := &onnx.ModelProto{IrVersion: 7}
+	if g.Opsets == nil {
+		mp.OpsetImport = []*onnx.OperatorSetIdProto{{Domain: "", Version: 13}}
+	} else {
+		for _, o := range g.Opsets {
+			mp.OpsetImport = append(mp.OpsetImport, &onnx.OperatorSetIdProto{Domain: o.Domain, Version: o.Version})
+		}
+	}
+	if g.NoGraph {
+		return mp
+	}
+	gp := &onnx.GraphProto{Name: "g"}
+	for _, n := range g.Nodes {
+		gp.Node = append(gp.Node, mkNode(n.Op, n.Attrs, n.Ins, n.Outs))
+	}
+	for _, v := range g.Inputs {
+		gp.Input = append(gp.Input, mkValueInfo(v))
+	}
+	for _, o := range g.Outputs {
+		gp.Output = append(gp.Output, &onnx.ValueInfoProto{Name: o})
+	}
+	for _, i := range g.Inits {
+		gp.Initializer = append(gp.Initializer, mkTensorProto(i.Name, i.T, i.Raw))
+	}
+	mp.Graph = gp
+	return mp
+}
+
+// loadModel goes through the same path a user does: bytes -> NewModelFromBytes.
+func loadModel(g *GraphJ) (*gonnx.Model, error) {
+	b, err := proto.Marshal(buildModelProto(g))
+	if err != nil {
+		return nil, fmt.Errorf("marshal: %w", err)
+	}
+	return gonnx.NewModelFromBytes(b)
 }
